@@ -4,7 +4,7 @@ from props import common, disp
 
 THM = "NextestModel.Thm.C10"
 GEN = ["tables"]
-GEN_GROUPS = ["cancel", "delayloop"]
+GEN_GROUPS = ["cancel", "delayloop", "respond"]
 TRUSTED = ["model: Model/Dispatcher (hand-written mirror of handle_event / begin_cancel / broadcast; corresponded through the stepping hook)",
            "the stepping hook repeats the part of DispatcherContext::run that maps a response to a broadcast (run itself needs live signal/input handlers)",
            "tokio channel FIFO order and select! fairness are not modelled: theorems hold for every event order"]
